@@ -103,101 +103,7 @@ func c18Rules(p *core.Prog, r *core.Run) {
 	// that carries no connection carries an error that cannot be nil - one made
 	// on the spot, one that was tested, the context's after Done, or the join of
 	// a list known to be non-empty (errors.Join of nothing is nil)
-	for i, ret := range core.Returns(dial) {
-		if len(ret.Results) != 2 {
-			continue
-		}
-		c := p.X(ret.Results[0])
-		noConn := false
-		for _, a := range c.Alts() {
-			if a.Op == "const" {
-				noConn = true
-			}
-		}
-		if !noConn {
-			continue
-		}
-		okErr := true
-		why := ""
-		// each way the error value gets to the return, with what is known on that way
-		type errWay struct {
-			e  *core.Expr
-			fs []core.Fact
-		}
-		var ways []errWay
-		var expand func(v ssa.Value, fs []core.Fact, depth int)
-		expand = func(v ssa.Value, fs []core.Fact, depth int) {
-			// a merged value that was itself tested is non-nil whichever way it came
-			for _, f := range fs {
-				if f.Op == "!=" && f.R != nil && f.R.Name == "nil" && f.G.Cond != nil {
-					if bo, ok := f.G.Cond.(*ssa.BinOp); ok && (bo.X == v || bo.Y == v) {
-						return
-					}
-				}
-			}
-			if ph, ok := v.(*ssa.Phi); ok && depth < 4 {
-				for k, ed := range ph.Edges {
-					expand(ed, append(append([]core.Fact{}, fs...), p.EdgeFacts(ph.Block().Preds[k], ph.Block())...), depth+1)
-				}
-				return
-			}
-			for _, a := range p.X(v).Alts() {
-				ways = append(ways, errWay{a, fs})
-			}
-		}
-		ev := retErr(ret)
-		if u, isLoad := ev.(*ssa.UnOp); isLoad && u.Op == token.MUL {
-			// functions with defers return through result cells: the value stored last
-			if cell, isCell := u.X.(*ssa.Alloc); isCell {
-				for _, in := range ret.Block().Instrs {
-					if st, isSt := in.(*ssa.Store); isSt && st.Addr == ssa.Value(cell) {
-						ev = st.Val
-					}
-				}
-			}
-		}
-		expand(ev, p.Facts(ret.Block()), 0)
-		for _, w := range ways {
-			e, fs := w.e, w.fs
-			switch {
-			case e.Op == "call" && (e.Name == "errors.New" || e.Name == "fmt.Errorf"):
-			case e.Op == "call" && e.Name == "(context.Context).Err":
-				// non-nil once Done was observed
-				done := false
-				for _, f := range fs {
-					if sl, ok := f.L.Select(); ok && f.Op == "==" {
-						if k, ok := f.R.ConstInt(); ok && int(k) < len(sl.States) && isDone(sl.States[k].Chan) {
-							done = true
-						}
-					}
-				}
-				if !done {
-					okErr, why = false, "ctx.Err() without Done observed"
-				}
-			case e.Op == "call" && e.Name == "errors.Join":
-				nonEmpty := false
-				for _, f := range fs {
-					if (f.Op == ">" || f.Op == "!=") && f.R != nil && f.R.Name == "0" && f.L.Op == "call" && f.L.Name == "len" {
-						nonEmpty = true
-					}
-				}
-				if !nonEmpty {
-					okErr, why = false, "errors.Join of a list that may be empty is nil"
-				}
-			default:
-				tested := false
-				for _, f := range fs {
-					if f.Op == "!=" && f.R != nil && f.R.Name == "nil" && f.L.String() == e.String() {
-						tested = true
-					}
-				}
-				if !tested {
-					okErr, why = false, "error of unknown nilness: "+short(e)
-				}
-			}
-		}
-		r.Check("C18.K0", fmt.Sprintf("Dial:return#%d", i), okErr, p.InstrPos(ret), "a return of Dial without a connection carries an error that cannot be nil %s", why)
-	}
+	valueOrError(p, r, "C18.K0", "Dial", dial, isDone)
 
 	// --- K1
 	nGo := 0
@@ -421,6 +327,54 @@ func c18Rules(p *core.Prog, r *core.Run) {
 			r.Check("C18.K3", fmt.Sprintf("dialfunc:context-blind#%d", nBlind), false, p.InstrPos(s.Instr), "%s does not take the attempt's context: neither the per-attempt timeout nor Dial's cancellation ends it", s.X.Name)
 		}
 		r.Check("C18.K3", "dialfunc:context-aware", nBlind == 0, p.Pos(nd.Pos()), "the default DialFunc and dialOne connect and handshake through context-taking calls (%d context-blind calls)", nBlind)
+	}
+
+	// ... and nothing on the way from Dial to the network detaches from the
+	// context it was given: name resolution for a later address runs under
+	// Dial's context and must end with it
+	{
+		var roots []*ssa.Function
+		for _, n := range []string{"(*Resolver).Resolve", "(*Dialer).Dial", "(*Transport).RoundTrip"} {
+			if f := p.Func(Ech, n); f != nil {
+				roots = append(roots, f)
+			}
+		}
+		if f := p.Func(DNS, "DoH"); f != nil {
+			roots = append(roots, f)
+		}
+		nDetach := 0
+		var scope []*ssa.Function
+		for _, f := range reachableFuncs(p, roots...) {
+			if inModule(p, f) {
+				scope = append(scope, f)
+			}
+		}
+		for _, s := range callSites(p, scope, `context\.(WithoutCancel|Background|TODO)`) {
+			nDetach++
+			r.Check("C18.K3", fmt.Sprintf("detached-context#%d", nDetach), false, p.InstrPos(s.Instr), "%s in %s: what runs under it is ended neither by the attempt's timeout nor by Dial's cancellation", s.X.Name, p.FuncName(core.Root(s.Fn)))
+		}
+		r.Check("C18.K3", "detached-context", nDetach == 0 && len(scope) >= 5, p.Pos(dial.Pos()), "no context detached from the caller's on the way from Dial, Resolve and RoundTrip to the network (%d functions, %d detachments)", len(scope), nDetach)
+	}
+
+	// the documented defaults (3 attempts at a time, 1 s apart, 30 s each) are
+	// the only constants the package itself ever puts into a Dialer's settings
+	{
+		want := map[string]string{"MaxConcurrency": "3", "ConcurrencyDelay": "1000000000", "Timeout": "30000000000"}
+		nDef := 0
+		for name, val := range want {
+			fv := field(p, Ech, "Dialer", name)
+			if fv == nil {
+				continue
+			}
+			for _, st := range fieldStores(p, p.PkgFuncs(Ech), fv) {
+				c, ok := st.Val.(*ssa.Const)
+				if !ok || c.Value == nil {
+					continue
+				}
+				nDef++
+				r.Check("C18.K6", fmt.Sprintf("default:%s#%d", name, nDef), c.Value.ExactString() == val, p.InstrPos(st), "Dialer.%s is preset to %s (documented default %s)", name, c.Value.ExactString(), val)
+			}
+		}
 	}
 
 	// --- K4
@@ -773,4 +727,106 @@ func c18Collector(p *core.Prog, r *core.Run, m *dialModel, isDone func(ssa.Value
 		}
 	}
 	r.Check("C18.K7", "collector:returns", okDone && okConn && okErrs, p.InstrPos(sel), "the collector returns ctx.Err() on Done (%v), the first connection received (%v), and errors.Join / 'no address' when the error channel is closed (%v)", okDone, okConn, okErrs)
+}
+
+// valueOrError: fn returns a value or an error, never neither: a return whose
+// first result can be the zero value carries an error that cannot be nil - one
+// made on the spot, one that was tested, the context's after Done, or the join
+// of a list known to be non-empty (errors.Join of nothing is nil).
+func valueOrError(p *core.Prog, r *core.Run, rule, label string, fn *ssa.Function, isDone func(ssa.Value) bool) {
+	for i, ret := range core.Returns(fn) {
+		if len(ret.Results) != 2 {
+			continue
+		}
+		c := p.X(ret.Results[0])
+		noConn := false
+		for _, a := range c.Alts() {
+			if a.Op == "const" {
+				noConn = true
+			}
+		}
+		if !noConn {
+			continue
+		}
+		okErr := true
+		why := ""
+		// each way the error value gets to the return, with what is known on that way
+		type errWay struct {
+			e  *core.Expr
+			fs []core.Fact
+		}
+		var ways []errWay
+		var expand func(v ssa.Value, fs []core.Fact, depth int)
+		expand = func(v ssa.Value, fs []core.Fact, depth int) {
+			// a merged value that was itself tested is non-nil whichever way it came
+			for _, f := range fs {
+				if f.Op == "!=" && f.R != nil && f.R.Name == "nil" && f.G.Cond != nil {
+					if bo, ok := f.G.Cond.(*ssa.BinOp); ok && (bo.X == v || bo.Y == v) {
+						return
+					}
+				}
+			}
+			if ph, ok := v.(*ssa.Phi); ok && depth < 4 {
+				for k, ed := range ph.Edges {
+					expand(ed, append(append([]core.Fact{}, fs...), p.EdgeFacts(ph.Block().Preds[k], ph.Block())...), depth+1)
+				}
+				return
+			}
+			for _, a := range p.X(v).Alts() {
+				ways = append(ways, errWay{a, fs})
+			}
+		}
+		ev := retErr(ret)
+		if u, isLoad := ev.(*ssa.UnOp); isLoad && u.Op == token.MUL {
+			// functions with defers return through result cells: the value stored last
+			if cell, isCell := u.X.(*ssa.Alloc); isCell {
+				for _, in := range ret.Block().Instrs {
+					if st, isSt := in.(*ssa.Store); isSt && st.Addr == ssa.Value(cell) {
+						ev = st.Val
+					}
+				}
+			}
+		}
+		expand(ev, p.Facts(ret.Block()), 0)
+		for _, w := range ways {
+			e, fs := w.e, w.fs
+			switch {
+			case e.Op == "call" && (e.Name == "errors.New" || e.Name == "fmt.Errorf"):
+			case e.Op == "call" && e.Name == "(context.Context).Err":
+				// non-nil once Done was observed
+				done := false
+				for _, f := range fs {
+					if sl, ok := f.L.Select(); ok && f.Op == "==" {
+						if k, ok := f.R.ConstInt(); ok && int(k) < len(sl.States) && isDone != nil && isDone(sl.States[k].Chan) {
+							done = true
+						}
+					}
+				}
+				if !done {
+					okErr, why = false, "ctx.Err() without Done observed"
+				}
+			case e.Op == "call" && e.Name == "errors.Join":
+				nonEmpty := false
+				for _, f := range fs {
+					if (f.Op == ">" || f.Op == "!=") && f.R != nil && f.R.Name == "0" && f.L.Op == "call" && f.L.Name == "len" {
+						nonEmpty = true
+					}
+				}
+				if !nonEmpty {
+					okErr, why = false, "errors.Join of a list that may be empty is nil"
+				}
+			default:
+				tested := false
+				for _, f := range fs {
+					if f.Op == "!=" && f.R != nil && f.R.Name == "nil" && f.L.String() == e.String() {
+						tested = true
+					}
+				}
+				if !tested {
+					okErr, why = false, "error of unknown nilness: "+short(e)
+				}
+			}
+		}
+		r.Check(rule, fmt.Sprintf("%s:return#%d", label, i), okErr, p.InstrPos(ret), "a return of %s without a value carries an error that cannot be nil %s", label, why)
+	}
 }
